@@ -10,16 +10,16 @@ PROP = 'C01'
 COQ_TARGETS = ['theories/PrimFacts.vo', 'theories/PrimFloat.vo', 'theories/PrimObjFacts.vo']
 COQ_IMPORTS = 'From Coq Require Import String.\nFrom Bac Require Import Base Tag Prim PrimTables PrimObj.'
 TABLE_OBLIGATIONS = ['enums_bijective', 'enums_in_range', 'bitstrings_wf', 'unsigned_limits_std']
-RULE = ('cases (in-kernel correspondence; quick ~10 k, thorough ~48 k): for each of the 13 primitive classes and every Enumerated/BitString/Unsigned '
+RULE = ('cases (in-kernel correspondence; quick ~10 k, thorough ~46 k): for each of the 13 primitive classes and every Enumerated/BitString/Unsigned '
         'subclass found by the translator: integers +-{0,1,2} around 2^(8k), k=0..5, around +-2^31 and 2^32 plus random ones (100 / 300); bit strings of '
         'every length 0..64 (zero/one/alternating/random); one whole-table case per enumeration class, plus (quick) 8 sampled values per class / '
         '(thorough) every name and number of every table and unnamed numbers at 8-bit boundaries through encode, constructor and decode; object '
         'identifiers at all type/instance boundaries plus random words (60 / 500); random octet/character strings (all charsets, valid and invalid '
-        'UTF-16/32); floats from float.hex literals (zeros, subnormals, max, RNE halfway cases, inf, NaN) and random patterns (30 / 170 seeds x 6 '
+        'UTF-16/32); floats from float.hex literals (zeros, subnormals, max, RNE halfway cases, inf, NaN) and random patterns (30 / 140 seeds x 6 '
         'neighbours); dates/times sampled from {0,1,127,128,254,255}^4 (80 / 400; the full grid is in the direct predicate) and out-of-octet fields; '
         'x {tag, application octets, context octets}: context numbers {0,1,14,15,16,254} (quick); thorough sweeps every context number 0..254 (+255, 256 '
         'refused) for a boundary subset of 24 values covering every class and content lengths 0..4/5/254, other values draw 1-2 random numbers from '
-        '0..256; decode of the produced octets (1500 / 7000 sampled) and of malformed tags (wrong class/number/length).  Object life cycles: for every '
+        '0..256; decode of the produced octets (1500 / 5000 sampled) and of malformed tags (wrong class/number/length).  Object life cycles: for every '
         'class, histories on ONE object (construct, encode app/ctx, decode another tag into it, assign, copy-construct, '
         'ObjectIdentifier.set_tuple/set_long/get_long, BitString.__setitem__, encode again), observation and state compared after every call '
         '(~600 / ~2200 histories).  non-trivial = the encoding has >= 1 content octet or the value must be refused, or a decode that yields a value / is '
@@ -750,7 +750,7 @@ def cases(rng, tier):
     for z in [-1, 0, 255, 2 ** 32 - 1, 2 ** 32, 2 ** 40]:
         out.append(case_ctor('unsigned', None, z))
     # floats
-    for d in float_pool(rng, 30 if quick else 170):
+    for d in float_pool(rng, 30 if quick else 140):
         all_modes(('real', d), nctx=1)
     for d in float_pool(rng, 10 if quick else 40) + [rng.getrandbits(64) for _ in range(40 if quick else 300)]:
         all_modes(('double', d), nctx=1)
@@ -808,7 +808,7 @@ def cases(rng, tier):
         out.append(case_ctor('objid', None, (t, i)))
 
     # ---- decode what was produced (both modes), then malformed tags
-    cap = 1500 if quick else 7000
+    cap = 1500 if quick else 5000
     if len(produced) > cap:
         produced = rng.sample(produced, cap)
     for kspec, octets, ctx in produced:
